@@ -71,6 +71,18 @@ for n in (0, 1):
                      functions=['carquet_crc32', 'carquet_crc32_update'],
                      est_s=120, timeout=400, note='undecided: SAT and z3 time out at 200 s already for total length 1 (three dependent calls with a symbolic split)', **dict(B,  defines=B['defines'] + ['CQV_LEN=%d' % n, 'CQV_OFF=3'])))
 
+# 7. ghost-free bounded stand-in (no overlay => cannot drift): the real file as it is, length n, all data
+PLAIN_Q = {4, 7}
+for n in [2, 3, 4, 5, 6, 7, 8]:
+    JOBS.append(dict(name='c14_crc32_plain_len%02d' % n, prop='C14', overlays=[], harness='harness/C14/crc32_plain.c',
+                     includes=['.'], defines=['CQV_MEMCPY_EXACT=16', 'CQV_LEN=%d' % n], entry='h_plain', loop_contracts=False,
+                     unwind=257, level='bounded', bound='length == %d bytes (all data), start value 0' % n,
+                     tier='quick' if n in PLAIN_Q else 'thorough', backend='sat', checks=['--bounds-check', '--pointer-check'],
+                     functions=['carquet_crc32', 'crc32_slicing_by_8', 'crc32_init_tables'],
+                     est_s=90, timeout=900, wip=False,
+                     replayer=dict(kind='direct', harness='replay/direct/crc32_selftest.c', sources=[], vars={}),
+                     note='no overlay: decides short lengths also after the body of crc32_slicing_by_8 was restructured'))
+
 # wip=False only for jobs seen `ok` on the unchanged tree AND seen failing on a deliberately broken
 # copy of the sources (see the report).  The slide/block8 lemmas do not depend on the sources once
 # L-lin/L-rec/L-byte are replaced by their contracts; they were checked for non-vacuity by breaking
@@ -80,6 +92,8 @@ VALIDATED = set(['c14_crc32_tables', 'c14_crc32_lemma_byte', 'c14_crc32_lemma_re
                  'c14_crc32_bounded_len00_off0', 'c14_crc32_bounded_len01_off7'] +
                 ['c14_crc32_lemma_lin%d' % k for k in range(8)] + ['c14_crc32_lemma_slide%d' % k for k in range(8)])
 for j in JOBS:
+    if j['name'].startswith('c14_crc32_plain_'):
+        continue
     j['wip'] = j['name'] not in VALIDATED
     if j['wip'] and not j.get('note'):
         j['note'] = 'not run on the unchanged tree yet / not validated on a broken copy'
